@@ -39,8 +39,12 @@ def main_src(imps, probe=None):
             lines.append("Schreibe zeige%d." % t["t"])
             lines.append('Schreibe " ".')
     if probe:
-        j, name = probe
-        lines.append("Die Zahl probe ist %s." % {"pub": "wert%d" % j, "fn": "zeige%d" % j, "priv": "geheim%d" % j}[name])
+        j, name = probe[0], probe[1]
+        if name == "reexp":
+            lines.insert(1, 'Binde wert%d aus "m%d" ein.' % (probe[2], j))
+            lines.append("Die Zahl probe ist wert%d." % probe[2])
+        else:
+            lines.append("Die Zahl probe ist %s." % {"pub": "wert%d" % j, "fn": "zeige%d" % j, "priv": "geheim%d" % j}[name])
     return "\n".join(lines) + "\n"
 
 
@@ -131,6 +135,14 @@ def run(tier):
                 files["main.ddp"] = main_src(g["imp"][0], probe=(j, name))
                 pj.append(dict(files=files, main="main.ddp"))
                 pmeta.append((i, j, name))
+            # a name that module j only imported must not be importable from j
+            own = [t["t"] for t in g["imp"][0]]
+            for u in [t["t"] for t in g["imp"][j]]:
+                if u != j and u not in own and j in own:
+                    files = dict(files_of[i])
+                    files["main.ddp"] = main_src(g["imp"][0], probe=(j, "reexp", u))
+                    pj.append(dict(files=files, main="main.ddp"))
+                    pmeta.append((i, j, "reexp"))
     pans = pool.run(pj)
     probes = {}
     for (i, j, name), a in zip(pmeta, pans):
